@@ -585,7 +585,8 @@ fn replay_pair<E: PairEst>(out: &mut Out, rng: &mut Rng, data: &[f64], kind: &st
     let mut e = E::new();
     pfeed(out, &mut e, &pairs, Trace::All, rng);
     let accs = pobserve(out, &e);
-    crate::props_pair::oracle_pairs_pub(out, kind, &pairs, &accs);
+    // the weighted oracle is defined for a positive total weight only (as in the generated cases)
+    if kind != "wt" || pairs.iter().map(|p| p.1).sum::<f64>() > 0.0 { crate::props_pair::oracle_pairs_pub(out, kind, &pairs, &accs); }
 }
 
 /// feed `data` one observation at a time to the named estimator and emit its protocol lines
